@@ -87,8 +87,14 @@ def gen_marker(rng, n, tier):
     for _ in range(n):
         nf = rng.randint(1, 3)
         k = rng.randint(1, 8)
-        out.append({'mode': rng.choice([1, 2]), 'thr': [rng.choice([0.0, 1.0, 2.0, 2.5]) for _ in range(nf)],
-                    'cols': [[rng.choice(VALS) for _ in range(k)] for _ in range(nf)], 'scalar': nf == 1 and rng.random() < 0.5,
+        thr = [rng.choice([0.0, 1.0, 2.0, 2.5]) for _ in range(nf)]
+        cols = [[rng.choice(VALS) for _ in range(k)] for _ in range(nf)]
+        if rng.random() < 0.3:                       # values a rounding error away from their threshold, at every magnitude ("exceeds" is an exact comparison of the two numbers)
+            thr = [rng.choice([0.3, 3.3, 1.7e9, 1e-12, 35.0, -2.5, 1e300, 2.0 ** -1060]) for _ in range(nf)]
+            near = lambda t: rng.choice([t, math.nextafter(t, math.inf), math.nextafter(t, -math.inf), t * (1 + 1e-12), t * (1 - 1e-12), t * (1 + 3e-10), t + abs(t) * 1e-15, 0.1 + 0.2, 3 * 1.1, None, 0.0])
+            cols = [[near(thr[j]) for _ in range(k)] for j in range(nf)]
+        out.append({'mode': rng.choice([1, 2]), 'thr': thr,
+                    'cols': cols, 'scalar': nf == 1 and rng.random() < 0.5,
                     # a third of the cases first run another segmentation into the same output feature (other thresholds, other mode): the second run must overwrite it
                     'before': ([rng.choice([0.0, 1.0, 2.0, 2.5, -2.0]) for _ in range(nf)], rng.choice([1, 2])) if rng.random() < 0.33 else None})
     return out
